@@ -247,6 +247,9 @@ where
             // This captures μ at iteration zero.
             self.info.save_scalars(μ, α, σ, iter);
 
+            #[cfg(clarabel_verif)]
+            self.variables.verif_record(iter, α, σ, μ, scaling == ScalingStrategy::Dual, 0);
+
             // convergence check and printing
             // --------------
             self.info.update(
@@ -390,6 +393,9 @@ where
             self.info.save_scalars(μ, α, σ, iter);
             notimeit! {timers; {self.info.print_status(&self.settings).unwrap();}}
         }
+
+        #[cfg(clarabel_verif)]
+        self.variables.verif_record(iter, α, σ, μ, false, 1);
 
         timeit! {timers => "post-process"; {
             //check for "almost" convergence case and then extract solution
